@@ -64,13 +64,13 @@ theorem timesMS_length (e : Enum) : e.timesMS.length = e.M.length * e.S.length :
 theorem hour_insts (r : Rule) (p : Inst) (hr : WfRule r) (hp : WfInst p) (hf : r.freq = 5) (x : Inst)
     (hx : HourlyInst r (seedT p) x) (y : Inst) :
     (Instance r (seedT p) y ∧ periodOf r.freq y = periodOf r.freq x) ↔
-      ∃ t ∈ (makeEnum p r).timesMS, y = { x with M := t.2.2.1, S := t.2.2.2 } := by
+      ∃ t ∈ (subEnum p r).timesMS, y = { x with M := t.2.2.1, S := t.2.2.2 } := by
   have hI : Instance r (seedT p) y = HourlyInst r (seedT p) y := by unfold Instance; rw [hf]; rfl
   have hP : ∀ z, periodOf r.freq z = habsOf z := by intro z; rw [hf]; rfl
   rw [hI, hP, hP]
   obtain ⟨t1, _, _, _⟩ := seedT_time p hp
   have hne : (seedT p).H ≠ allDay := by simp only [allDay]; omega
-  have hT := (timesMS_sorted (makeEnum p r) (makeEnum_M r p hr hp) (makeEnum_S r p hr hp)).2
+  have hT := (timesMS_sorted (subEnum p r) (subEnum_M r p hr hp) (subEnum_S r p hr hp)).2
   obtain ⟨⟨a1, a2, a3, a4, a5, a6⟩, xne, xk, l1, l2, l3, l4, l5⟩ := hx
   rcases a6 with ⟨c, _⟩ | ⟨_, aH, aM, aS⟩
   · exact absurd c hne
@@ -79,7 +79,7 @@ theorem hour_insts (r : Rule) (p : Inst) (hr : WfRule r) (hp : WfInst p) (hf : r
     rcases b6 with ⟨c, _⟩ | ⟨_, bH, bM, bS⟩
     · exact absurd c hne
     rw [if_neg hne] at m4 m5
-    obtain ⟨iM, iS, hent, _, _⟩ := entry_of (makeEnum p r) y.M y.S ((minExp_iff r p hr hp y).mp m4)
+    obtain ⟨iM, iS, hent, _, _⟩ := entry_of (subEnum p r) y.M y.S ((minExp_iff r p hr hp y).mp m4)
       ((secExp_iff r p hr hp y).mp m5)
     refine ⟨_, hent, ?_⟩
     simp only [habsOf, dayOf] at hper
@@ -99,23 +99,23 @@ theorem hour_insts (r : Rule) (p : Inst) (hr : WfRule r) (hp : WfInst p) (hf : r
       exact List.fst_mem_of_mem_zipIdx (x := (t.2.2.2, t.2.1)) m2
 
 theorem setpos_hly (r : Rule) (p : Inst) (hr : WfRule r) (hp : WfInst p) (hf : r.freq = 5) (x : Inst)
-    (hx : HourlyInst r (seedT p) x) (t : Nat × Nat × Nat × Nat) (ht : t ∈ (makeEnum p r).timesMS)
+    (hx : HourlyInst r (seedT p) x) (t : Nat × Nat × Nat × Nat) (ht : t ∈ (subEnum p r).timesMS)
     (eM : t.2.2.1 = x.M) (eS : t.2.2.2 = x.S) :
     SetposOk r (seedT p) x ↔ pickH r p t = true := by
   have hxne : x.H ≠ allDay := hx.2.1
-  have hT := timesMS_sorted (makeEnum p r) (makeEnum_M r p hr hp) (makeEnum_S r p hr hp)
+  have hT := timesMS_sorted (subEnum p r) (subEnum_M r p hr hp) (subEnum_S r p hr hp)
   obtain ⟨m1, m2⟩ := (mem_timesMS _ t).mp ht
-  have hget := timesMS_get (makeEnum p r) t.1 t.2.1 t.2.2.1 t.2.2.2 (List.mem_zipIdx_iff_getElem?.mp m1)
+  have hget := timesMS_get (subEnum p r) t.1 t.2.1 t.2.2.1 t.2.2.2 (List.mem_zipIdx_iff_getElem?.mp m1)
     (List.mem_zipIdx_iff_getElem?.mp m2)
-  have hasc : (makeEnum p r).timesMS.Pairwise (fun a b => 60 * a.2.2.1 + a.2.2.2 < 60 * b.2.2.1 + b.2.2.2) := by
+  have hasc : (subEnum p r).timesMS.Pairwise (fun a b => 60 * a.2.2.1 + a.2.2.2 < 60 * b.2.2.1 + b.2.2.2) := by
     refine List.Pairwise.imp_of_mem ?_ hT.1
     intro a b ha hb hab
     have := hT.2 a ha
     have := hT.2 b hb
     simp only [tk] at hab
     omega
-  have := setpos_generic r (seedT p) x (makeEnum p r).timesMS (fun a => 60 * a.2.2.1 + a.2.2.2)
-    (fun a => { x with M := a.2.2.1, S := a.2.2.2 }) (t.1 * (makeEnum p r).S.length + t.2.1) t hasc hget
+  have := setpos_generic r (seedT p) x (subEnum p r).timesMS (fun a => 60 * a.2.2.1 + a.2.2.2)
+    (fun a => { x with M := a.2.2.1, S := a.2.2.2 }) (t.1 * (subEnum p r).S.length + t.2.1) t hasc hget
     (by show ({ x with M := t.2.2.1, S := t.2.2.2 } : Inst) = x; rw [eM, eS])
     (hour_insts r p hr hp hf x hx) (by
       intro a b
